@@ -166,6 +166,11 @@ pub struct LObj {
     #[serde(default, skip_serializing_if = "Option::is_none")]
     b: Option<String>,
 }
+/// a plain (not `transparent`) newtype around an object, alone and inside a list
+#[derive(Debug, Clone, PartialEq, Serialize, Deserialize)]
+pub struct LNew(LObj);
+#[derive(Debug, Clone, PartialEq, Serialize, Deserialize)]
+pub struct LNews(Vec<LNew>);
 #[derive(Debug, Clone, PartialEq, Serialize, Deserialize)]
 pub enum LCmd {
     Create { foo: i32 },
@@ -180,7 +185,13 @@ pub enum LCmd {
 fn server_rules(cs: &mut Cases) {
     // (serde *struct variants* are not object types in the statement's sense — Conjure never generates them and
     // `struct_variant` does not pass through `deserialize_struct`; see DESIGN.md C05 — so `Create` only appears valid)
-    let docs: [(&str, char, bool); 14] = [
+    let docs: [(&str, char, bool); 20] = [
+        ("{\"a\":1}", 'n', true),
+        ("{\"a\":1,\"zz\":2}", 'n', false),
+        ("[{\"a\":1},{\"a\":2,\"b\":\"x\"}]", 'N', true),
+        ("[{\"a\":1},{\"a\":2,\"y\":[]}]", 'N', false),
+        ("[]", 'N', true),
+        ("[{\"a\":1,\"b\":null,\"c\":{}}]", 'N', false),
         ("{\"a\":1}", 'o', true),
         ("{\"a\":1,\"b\":\"x\"}", 'o', true),
         ("{\"a\":1,\"zz\":2}", 'o', false),
@@ -202,8 +213,13 @@ fn server_rules(cs: &mut Cases) {
             let body = if smile { serde_smile::to_vec(&value).unwrap() } else { doc.as_bytes().to_vec() };
             let ct = if smile { "application/x-jackson-smile" } else { "application/json" };
             let chunks = if body.len() > 3 { vec![Chunk::Ok(body[..3].to_vec()), Chunk::Ok(body[3..].to_vec())] } else { vec![Chunk::Ok(body.clone())] };
-            let (b, a) = if ty == 'o' { (run_std::<LObj, 64>(Some(ct), &chunks, false), run_std::<LObj, 64>(Some(ct), &chunks, true)) } else { (run_std::<LCmd, 64>(Some(ct), &chunks, false), run_std::<LCmd, 64>(Some(ct), &chunks, true)) };
-            cs.push("std:server-rules", "noop".into(), "noop".into(), true, format!("StdRequestDeserializer::<{}> {} body {}", if ty == 'o' { "LObj" } else { "LCmd" }, if smile { "Smile" } else { "JSON" }, doc));
+            let (b, a) = match ty {
+                'o' => (run_std::<LObj, 64>(Some(ct), &chunks, false), run_std::<LObj, 64>(Some(ct), &chunks, true)),
+                'n' => (run_std::<LNew, 64>(Some(ct), &chunks, false), run_std::<LNew, 64>(Some(ct), &chunks, true)),
+                'N' => (run_std::<LNews, 64>(Some(ct), &chunks, false), run_std::<LNews, 64>(Some(ct), &chunks, true)),
+                _ => (run_std::<LCmd, 64>(Some(ct), &chunks, false), run_std::<LCmd, 64>(Some(ct), &chunks, true)),
+            };
+            cs.push("std:server-rules", "noop".into(), "noop".into(), true, format!("StdRequestDeserializer::<{}> {} body {}", match ty { 'o' => "LObj", 'n' => "LNew", 'N' => "LNews", _ => "LCmd" }, if smile { "Smile" } else { "JSON" }, doc));
             match (b, a) {
                 (Ok(b), Ok(a)) => {
                     if a != b {
